@@ -10,11 +10,14 @@ package main
 // parser / callgrind checker through pvdrv-C18.  The verdict is Lean's; Go only names the site.
 
 import (
+	"context"
 	"encoding/json"
 	"fmt"
 	"os"
+	"os/exec"
 	"strings"
 	"sync"
+	"time"
 
 	"github.com/google/pprof/internal/graph"
 	"github.com/google/pprof/internal/report"
@@ -62,7 +65,7 @@ func c18Canon(cs *c18Case) string {
 // c18Eval applies the oracle to the real output of one case.
 func c18Eval(c *Ctx, cs *c18Case, o c18Out) {
 	canon := c18Canon(cs)
-	reached := cs.Marker != "" && strings.Contains(string(o.out), cs.Marker)
+	reached := cs.Marker != "" && strings.Contains(strings.ToLower(string(o.out)), strings.ToLower(cs.Marker)) // units are lower-cased by the formatter
 	c.Res.Hit("kind/" + cs.Kind)
 	if cs.Known {
 		c.Res.Hit("stream/known-findings/" + cs.Kind)
@@ -172,6 +175,9 @@ func c18Eval(c *Ctx, cs *c18Case, o c18Out) {
 		}
 		if reached {
 			c.Res.Hit("reached/" + cs.Kind + "/" + cs.Hot)
+		}
+		if c.Tier == "thorough" && cs.Kind == "callgrind-cli" && res.OK {
+			c18Annotate(c, o.out)
 		}
 		c.Res.Count(canon, reached || len(res.Calls) > 0)
 	}
@@ -415,6 +421,32 @@ func c18CgStream(r *Rng, cs *c18Case, known bool) {
 	cs.Opts.CallTree = false
 	if cs.Opts.Gran == "addresses" {
 		cs.Opts.Gran = "lines"
+	}
+}
+
+// c18Annotate: thorough tier only — callgrind_annotate as a second, independent reader of output
+// the Lean checker accepted.  Recorded in the distribution, never a verdict.
+func c18Annotate(c *Ctx, out []byte) {
+	tool, err := exec.LookPath("callgrind_annotate")
+	if err != nil {
+		return
+	}
+	f, err := os.CreateTemp("", "c18-cg-*.out")
+	if err != nil {
+		return
+	}
+	defer os.Remove(f.Name())
+	f.Write(out)
+	f.Close()
+	ctx, cancel := context.WithTimeout(context.Background(), 20*time.Second)
+	defer cancel()
+	if b, err := exec.CommandContext(ctx, tool, f.Name()).CombinedOutput(); err != nil {
+		c.Res.Hit("callgrind_annotate/rejects")
+		if len(c.Res.Notes) < 12 {
+			c.Res.Notes = append(c.Res.Notes, "callgrind_annotate: "+trunc(string(b)))
+		}
+	} else {
+		c.Res.Hit("callgrind_annotate/accepts")
 	}
 }
 
